@@ -82,6 +82,50 @@ def hostile(w):
     return {"reproduced": bool(probs), "detail": "; ".join(probs[:3]) or "catalogue handled without exception or collateral change"}
 
 
+def publish_reads(kindname):
+    """plain Read handlers run before an element is published, so that they can refresh it: every kind, publication through an
+    assignment to a sibling element and through getProperties-independent to_set_message of the property"""
+    from indi.device import Driver, properties, values
+    from indi.device.events import on, Read
+    from indi.routing import Router, Client
+    probs = []
+    fresh = {"text": "refreshed", "number": 4.5, "light": "Alert", "blob": values.BLOB(b"fresh", ".f"), "switch": "On"}[kindname]
+    mk = {"text": lambda n: properties.Text(n, default="old"), "number": lambda n: properties.Number(n, default=1.0),
+          "light": lambda n: properties.Light(n, default="Ok"), "blob": lambda n: properties.BLOB(n), "switch": lambda n: properties.Switch(n)}[kindname]
+    vec_cls = {"text": properties.TextVector, "number": properties.NumberVector, "light": properties.LightVector, "blob": properties.BLOBVector,
+               "switch": properties.SwitchVector}[kindname]
+    kw = {"rule": "AnyOfMany"} if kindname == "switch" else {}
+    grp = properties.Group("MAIN", vectors=dict(v=vec_cls("V", elements=dict(e=mk("E"), f=mk("F")), **kw)))
+    calls = []
+
+    def h(self, ev):
+        calls.append(1)
+        ev.element.reset_value(fresh)
+    Dev = type(Driver)("Dev", (Driver,), {"name": "DEV", "main": grp, "rd": on(grp.v.e, Read)(h)})
+    got = []
+
+    class Rec(Client):
+        def message_from_device(self, m):
+            got.append(m)
+    r = Router()
+    c = Rec()
+    r.register_client(c)
+    from indi import message as M
+    r.process_message(M.EnableBLOB(device="DEV", value="Also"), sender=c)
+    d = Dev(router=r)
+    msg = d.main.v.to_set_message()
+    if not calls:
+        probs.append("%s: publishing the property did not run the element's plain Read handler" % kindname)
+    ch = [x for x in msg.children if x.name == "E"][0]
+    shown = ch.value
+    ok = {"text": lambda: shown == "refreshed", "number": lambda: shown is not None and float(shown) == 4.5, "light": lambda: shown == "Alert",
+          "switch": lambda: shown == "On",
+          "blob": lambda: shown == values.BLOB(b"fresh", ".f").binary_base64 and ch.format == ".f" and int(ch.size) == 5}[kindname]()
+    if not ok:
+        probs.append("%s: the update carries %r, not the value the Read handler refreshed" % (kindname, shown))
+    return {"reproduced": bool(probs), "detail": "; ".join(probs) or "Read handlers ran before publication and the update carries the refreshed value"}
+
+
 @kind("driver.events")
 def events_oracle(w):
     """C14 natively: configurable numbers of plain/coroutine/vetoing handlers on one element;
@@ -94,14 +138,18 @@ def events_oracle(w):
     kindname = w.get("kind", "text")
     op = w.get("op", "set_value")
     probs = []
+    if op == "publish":
+        return publish_reads(kindname)
 
     async def scenario(n_plain_w, n_coro_w, veto, n_change, same_value):
         log = []
         el_def = {"text": properties.Text("E", default="old"), "number": properties.Number("E", default=1.0, min=0, max=9),
-                  "light": properties.Light("E", default="Ok"), "blob": properties.BLOB("E")}[kindname]
-        vec_cls = {"text": properties.TextVector, "number": properties.NumberVector, "light": properties.LightVector, "blob": properties.BLOBVector}[kindname]
+                  "light": properties.Light("E", default="Ok"), "blob": properties.BLOB("E"), "switch": properties.Switch("E")}[kindname]
+        vec_cls = {"text": properties.TextVector, "number": properties.NumberVector, "light": properties.LightVector, "blob": properties.BLOBVector,
+                   "switch": properties.SwitchVector}[kindname]
+        vkw = {"rule": "AnyOfMany"} if kindname == "switch" else {}
 
-        grp = properties.Group("MAIN", vectors=dict(v=vec_cls("V", elements=dict(e=el_def))))
+        grp = properties.Group("MAIN", vectors=dict(v=vec_cls("V", elements=dict(e=el_def, f=properties.Switch("F")) if kindname == "switch" else dict(e=el_def), **vkw)))
         dct = {"name": "DEV", "main": grp}
 
         class _NS:
@@ -128,13 +176,15 @@ def events_oracle(w):
             def message_from_device(self, m):
                 log.append(("publish", [c.value for c in m.children]))
         r = Router()
-        r.register_client(Rec())
+        rec = Rec()
+        r.register_client(rec)
+        r.process_message(message.EnableBLOB(device="DEV", value="Also"), sender=rec)
         d = Dev(router=r)
         e = d.main.v.e
         old = e._value
         from indi.device import values
         new = {"text": "old" if same_value else "new", "number": 1.0 if same_value else 2.0, "light": "Ok" if same_value else "Busy",
-               "blob": values.BLOB(b"abc", ".x")}[kindname]
+               "blob": values.BLOB(b"abc", ".x"), "switch": "Off" if same_value else "On"}[kindname]
         if op == "assign":
             e.value = new
         elif op in ("set_value", "write"):
@@ -304,3 +354,31 @@ def publish(w):
             probs.append("definition after a run-time state change carries state %r, the property is Busy" % (m.state,))
     roundtrip_all("updates")
     return {"reproduced": bool(probs), "detail": "; ".join(probs[:4]) or "all emitted messages are read back unchanged; getProperties answered exactly"}
+
+
+@kind("driver.events_all")
+def events_all(w):
+    """bounded stand-in for C14 when a task is out of the engine's reach: the native event scenarios for every element kind and operation"""
+    probs, cases = [], 0
+    for k in ("text", "number", "light", "blob", "switch"):
+        for op in ("assign", "set_value", "read", "publish"):
+            cases += 1
+            r = events_oracle({"kind": k, "op": op})
+            if r.get("reproduced"):
+                probs.append("%s/%s: %s" % (k, op, r["detail"]))
+    return {"cases": cases, "reproduced": bool(probs), "detail": "; ".join(probs[:3]) or "event contract holds on the native scenarios",
+            "failures": [{"detail": p, "reproduced": True, "witness": {"replay_kind": "driver.events_all"}} for p in probs[:3]]}
+
+
+@kind("driver.hostile_all")
+def hostile_all(w):
+    """bounded stand-in for C12's driver obligations when a task is out of the engine's reach: the fault catalogue for every message kind x target"""
+    probs, cases = [], 0
+    for m in ("NewTextVector", "NewNumberVector", "NewSwitchVector", "NewBLOBVector"):
+        for t in ("text", "number", "switch", "blob", "light", "nope"):
+            cases += 1
+            r = hostile({"message": m, "target": t})
+            if r.get("reproduced"):
+                probs.append("%s -> %s: %s" % (m, t, r["detail"]))
+    return {"cases": cases, "reproduced": bool(probs), "detail": "; ".join(probs[:3]) or "nothing raised, nothing but validly named elements changed",
+            "failures": [{"detail": p, "reproduced": True, "witness": {"replay_kind": "driver.hostile_all"}} for p in probs[:3]]}
